@@ -276,10 +276,10 @@ Section Equiv.
 
   Lemma withS_agree (rp : option exc -> stmt -> state -> state * pres) (ry : option exc -> stmt -> state -> state * outcome) :
     (forall cur, agree (rp cur) (ry cur)) -> (forall cur, safe (ry cur)) ->
-    forall inl cur k x b st, supp inl (SWithS k x b) = true ->
+    forall inl cur a k x b st, supp inl (SWithS a k x b) = true ->
       cv (ps_withS h no_dev rp cur k x b st) = py_withS ry cur k x b st.
   Proof.
-    intros Hag Hsf inl cur k x b st Hs. cbn [supp] in Hs. apply andb_prop in Hs as [Hx Hb].
+    intros Hag Hsf inl cur a k x b st Hs. cbn [supp] in Hs. apply andb_prop in Hs as [Hx Hb].
     unfold ps_withS, py_withS.
     pose proof (block_agree _ _ (Hag cur) inl b (emit (EvEnter k) st) Hb) as E.
     destruct (ps_block (rp cur) b (emit (EvEnter k) st)) as [st3 r]; destruct (py_block (ry cur) b (emit (EvEnter k) st)) as [st3' o].
@@ -339,12 +339,13 @@ Section Equiv.
     - (* while *) cbn [supp] in Hs. apply andb_prop in Hs as [Hb Ho].
       apply (loop_agree _ _ _ (IH cur) _ inl); assumption.
     - (* for *) cbn [supp] in Hs. apply andb_prop in Hs as [Hb Ho].
+      change (d202_asyncfor_sync no_dev) with false. cbn [andb].
       apply (loop_agree _ _ _ (IH cur) _ inl); assumption.
     - (* try *) apply (try_agree _ _ IH inl); assumption.
     - (* with *) cbn [supp] in Hs. apply (with_agree _ _ (IH cur) inl); assumption.
     - (* assert *) destruct (q_cond h k st) as [[|] st1]; [reflexivity|]. destruct (assert_fail h msg st1); reflexivity.
     - (* func *) cbn [supp] in Hs. apply call_agree; [apply IH|apply py_stmt_safe|assumption].
-    - (* with, script-defined manager *) apply (withS_agree _ _ IH (py_stmt_safe f) inl); assumption.
+    - (* with, script-defined manager *) apply (withS_agree _ _ IH (py_stmt_safe f) inl cur a); assumption.
   Qed.
 
   (* ---------------------------------------------------------------------------------------------- *)
@@ -368,22 +369,22 @@ Definition w_classes : cls_table :=
   [(0, [0]); (1, [0; 1]); (2, [0; 1; 2]); (3, [0; 1; 3]); (4, [0; 1; 4]); (5, [0; 1; 5]);
    (6, [0; 1; 6]); (7, [0; 1; 6; 7]); (8, [0; 1; 8]); (9, [0; 9]); (10, [0; 10])]%N.
 Definition only_d8 := {| d8_else_drops_jump := true; d9_with_flat := false; d10_base_uncaught := false;
-                         d200_unbind_keyerror := false; d201_enter_in_try := false |}.
+                         d200_unbind_keyerror := false; d201_enter_in_try := false; d202_asyncfor_sync := false |}.
 Definition only_d9 := {| d8_else_drops_jump := false; d9_with_flat := true; d10_base_uncaught := false;
-                         d200_unbind_keyerror := false; d201_enter_in_try := false |}.
+                         d200_unbind_keyerror := false; d201_enter_in_try := false; d202_asyncfor_sync := false |}.
 Definition only_d10 := {| d8_else_drops_jump := false; d9_with_flat := false; d10_base_uncaught := true;
-                          d200_unbind_keyerror := false; d201_enter_in_try := false |}.
+                          d200_unbind_keyerror := false; d201_enter_in_try := false; d202_asyncfor_sync := false |}.
 Definition only_d200 := {| d8_else_drops_jump := false; d9_with_flat := false; d10_base_uncaught := false;
-                           d200_unbind_keyerror := true; d201_enter_in_try := false |}.
+                           d200_unbind_keyerror := true; d201_enter_in_try := false; d202_asyncfor_sync := false |}.
 Definition only_d201 := {| d8_else_drops_jump := false; d9_with_flat := false; d10_base_uncaught := false;
-                           d200_unbind_keyerror := false; d201_enter_in_try := true |}.
+                           d200_unbind_keyerror := false; d201_enter_in_try := true; d202_asyncfor_sync := false |}.
 
 (* for i: t1; (for j: t2; else: t3; continue; t4); t5 *)
 Definition w_d8_body : list stmt :=
-  [SFor 1 [STrace 1; SFor 2 [STrace 2] [STrace 3; SContinue; STrace 4]; STrace 5] []; STrace 6]%N.
+  [SFor FSync 1 [STrace 1; SFor FSync 2 [STrace 2] [STrace 3; SContinue; STrace 4]; STrace 5] []; STrace 6]%N.
 Definition w_d8_scripts : scripts := [(1, [1; 1]); (2, [1])]%N.
 (* with M(1), M(2 suppresses): t1; raise EA *)
-Definition w_d9_body : list stmt := [SWith [1; 2] [STrace 1; SRaise 6 None]; STrace 2]%N.
+Definition w_d9_body : list stmt := [SWith false [1; 2] [STrace 1; SRaise 6 None]; STrace 2]%N.
 Definition w_d9_mgrs : mgr_table := [(1, (None, XRet false)); (2, (None, XRet true))]%N.
 (* try: t1; raise BX  except BaseException: t2 *)
 Definition w_d10_body : list stmt := [STry [STrace 1; SRaise 9 None] [(MCls [0], None, [STrace 2])] [] []; STrace 3]%N.
@@ -393,8 +394,14 @@ Definition w_d200_body : list stmt :=
         [(MCls [6], Some 1, [STry [SRaise 7 None] [(MCls [7], Some 1, [STrace 1])] [] []; SProbe 1 1])] [] [];
    STrace 2; SReturn (Some 5)]%N.
 (* with M(1: __enter__ raises EA, __exit__ returns True): t1 *)
-Definition w_d201_body : list stmt := [SWith [1] [STrace 1]; STrace 2]%N.
+Definition w_d201_body : list stmt := [SWith false [1] [STrace 1]; STrace 2]%N.
 Definition w_d201_mgrs : mgr_table := [(1, (Some (exc_of 6), XRet true))]%N.
+
+Definition only_d202 := {| d8_else_drops_jump := false; d9_with_flat := false; d10_base_uncaught := false;
+                           d200_unbind_keyerror := false; d201_enter_in_try := false; d202_asyncfor_sync := true |}.
+(* async for _ in AIt(1): t1   (AIt: a proper asynchronous iterator) *)
+Definition w_d202_body : list stmt := [SFor FAsyncOnly 1 [STrace 1] []; STrace 2]%N.
+Definition w_d202_scripts : scripts := [(1, [1])]%N.
 
 Definition differs (cfg : deviations) (sc : scripts) (mg : mgr_table) (body : list stmt) : Prop :=
   supported body = true /\
@@ -409,6 +416,9 @@ Proof. split; [reflexivity|]. vm_compute. discriminate. Qed.
 Lemma refuted_D200 : differs only_d200 [] [] w_d200_body.
 Proof. split; [reflexivity|]. vm_compute. discriminate. Qed.
 Lemma refuted_D201 : differs only_d201 [] w_d201_mgrs w_d201_body.
+Proof. split; [reflexivity|]. vm_compute. discriminate. Qed.
+
+Lemma refuted_D202 : differs only_d202 w_d202_scripts [] w_d202_body.
 Proof. split; [reflexivity|]. vm_compute. discriminate. Qed.
 
 (* what the reference computes on the witnesses (sanity: these are the CPython results of the findings) *)
@@ -433,24 +443,24 @@ Proof. vm_compute. reflexivity. Qed.
    and across a script-defined __exit__ that returns *)
 Example py_pending_return :
   py_exec (chost [] [] [] w_classes) 20
-          [SWithS 2 [SReturn (Some 0)] [STry [SReturn (Some 5)] [] [] [SFunc 1 [SReturn (Some 7)]]]]%N [] =
+          [SWithS false 2 [SReturn (Some 0)] [STry [SReturn (Some 5)] [] [] [SFunc false 1 [SReturn (Some 7)]]]]%N [] =
   ([EvEnter 2; EvRet 1 (Some 7); EvExit 2 None]%N, CRet (Some 5)%N).
 Proof. vm_compute. reflexivity. Qed.
 (* the same try statement executed twice: HC1 is EA (7-1) the first time and EC (9-1) after sw(1) *)
 Example py_rebound_handler_class :
   py_exec (chost [(1, [7; 9]); (2, [1; 1])]%N [] [] w_classes) 20
-          [SFor 2 [STry [SRaise 7 None] [(MVar [] 1, None, [STrace 1])] [] []; SSwitch 1] []]%N [(1, [7; 9]); (2, [1; 1])]%N =
+          [SFor FSync 2 [STry [SRaise 7 None] [(MVar [] 1, None, [STrace 1])] [] []; SSwitch 1] []]%N [(1, [7; 9]); (2, [1; 1])]%N =
   ([EvIter 2; EvN 2 true; EvT 1; EvSw 1; EvN 2 true]%N, CExc (exc_of 7)).
 Proof. vm_compute. reflexivity. Qed.
 
 (* the hypotheses of flow_equiv are inhabited by a non-trivial skeleton: every construct, nested *)
 Definition ex_body : list stmt :=
   [STrace 1;
-   SFor 1 [STry [SWith [1; 2] [SIf 2 [SBreak] [SContinue]]]
+   SFor FSync 1 [STry [SWith false [1; 2] [SIf 2 [SBreak] [SContinue]]]
                 [(MCls [6; 8], Some 1, [SProbe 3 1; SReraise]); (MAny, None, [SReturn (Some 3)])]
                 [SWhile 4 [SAssert 5 None; SAssert 7 (Some 8)] [SBreak]]
-                [STrace 2; SFunc 6 [SRaise 7 (Some 8)]; SSwitch 9;
-                 SWithS 10 [SReraise; SReturn (Some 1)] [STry [SRaise 7 None] [(MVar [8] 9, None, [SContinue])] [] []]]]
+                [STrace 2; SFunc false 6 [SRaise 7 (Some 8)]; SSwitch 9;
+                 SWithS false 10 [SReraise; SReturn (Some 1)] [STry [SRaise 7 None] [(MVar [8] 9, None, [SContinue])] [] []]]]
           [SPass];
    SReturn None]%N.
 Example ex_supported : supported ex_body = true.
